@@ -8,6 +8,7 @@ Line-protocol adapters for the stable lexer / FileInfo model (E-LEX).
   lex      (C11)  `lex <l|s> <hex>`  token / item / comment / line tables of a lexer-only run
                   `ast <hex>`        walk-print of the real parser's AST for an accepted file
   lexpos   (C13)  `pos <l|s> <hex>`  SourcePos of every scanned offset, Start/End of every item
+                  `cpos <l|s> <hex>` the same questions asked from 8 goroutines at once: same / differ
   literal  (C14)  `lit|opt|dflt <hex>` literal decoding alone / as option value / as default
   lextotal (C12)  `tot <l|s> <hex> <observed error offset:class list> <observed Parse outcome> <observed ResultFromAST outcome>`
 
@@ -195,6 +196,12 @@ def lexposModel (line : String) : String :=
     match mode? m, bytesOfHex h with
     | some lenient, some bs => showPos (lexAll lenient bs)
     | _, _ => "bad-op"
+  | ["cpos", m, h] =>
+    -- the model is sequential: a position is a function of the tables and the offset, so
+    -- concurrent queries answer what sequential ones answer
+    match mode? m, bytesOfHex h with
+    | some _, some _ => "same"
+    | _, _ => "bad-op"
   | _ => "bad-op"
 
 /-- is (line, col) what the property says for offset `o` of `data`? `none` = no claim
@@ -232,6 +239,11 @@ def posFailure (data : List UInt8) (e : String) (what : String) (o l c : Nat) : 
 def lexposSpec (line ans : String) : String :=
   if ans.startsWith "PANIC" then "skip" else    -- decided by C12
   match words line with
+  | ["cpos", _, _] =>
+    -- the position of an offset does not depend on who else is asking
+    if ans == "same" then "holds"
+    else if ans.startsWith "differ" then "fails concurrent-position-differs " ++ (ans.drop 7).toString
+    else "skip"
   | ["pos", _, h] =>
     match bytesOfHex h, field ans "P", field ans "S", field ans "E" with
     | some bs, some p, some s, some e =>
